@@ -10,7 +10,7 @@ Eps      == {"https", "http", "none", "noscheme", "badurl", "badurl2", "mixed", 
 Creds    == {"token", "none", "keycert", "keyonly", "certonly", "badpair"}
 CAs      == {"insecure", "ca", "none", "badca", "insecure+ca"}   \* "insecure+ca": skip verification AND a CA bundle
 Rates    == {"zero", "ok", "negqps", "negburst", "qps>burst", "negdiv", "div"}
-Servings == {"none", "pair", "pair2", "mismatch", "certonly", "certonly2", "keyonly2", "garbage", "badca", "caonly"}   \* ("...2": material of a second key pair: matters when an object is applied over another one)
+Servings == {"none", "pair", "pair2", "mismatch", "certonly", "certonly2", "keyonly2", "garbage", "badca", "caonly", "caempty"}   \* ("...2": material of a second key pair: matters when an object is applied over another one)
 Members  == SUBSET {"exempt", "mif", "tb", "gmif", "gtb"}
 Nums     == {"ok", "neg", "zero", "local>global", "big", "burst<qps", "gneg"}
 Strats   == {"", "local", "globalAllocate", "globalCount", "bogus"}
